@@ -148,6 +148,16 @@ Theorem C02_row_order_irrelevant : forall O, fops_ok O -> forall k (rows rows' :
 Proof. intros O OK. exact (of_rows_order_irrelevant O OK). Qed.
 Print Assumptions C02_row_order_irrelevant.
 
+(* rigs.txt with the sensor-id filter: a member is kept iff it is a known sensor or the id of ANY rig of the
+   file (nested rigs) - a condition on the set of rows, not on their order *)
+Theorem C02_rigs_members_order_free : forall O sids t (rs : table O),
+  read_rows O fk_rigs (table_of_text t) = Ok rs -> keys_nodup O 2 rs = true ->
+  (forall r, In r rs -> ~ In (key1 O r) sids) ->
+  exists tb, read_rigs O sids t = Ok (tb, map (key1 O) rs) /\
+             forall r, In r tb <-> In r rs /\ (In (dev_of O fk_rigs r) sids \/ In (dev_of O fk_rigs r) (map (key1 O) rs)).
+Proof. intro O. exact (read_rigs_members O). Qed.
+Print Assumptions C02_rigs_members_order_free.
+
 (* integers: sign and leading zeros *)
 Theorem C02_leading_zeros : forall O k (n : N),
   read_cell O TInt (repeat "0"%char k ++ show_N n) = Some (CInt (Z.of_N n)) /\
